@@ -117,10 +117,12 @@ class Report(object):
         }
         coverage.update(self.extra)
         C.write_evidence(self.pid, self.tier, self.seed, level, coverage, self.assumptions, wall, len(new_viol))
-        if self.errors:
-            code = C.EXIT_BROKEN
-        elif new_viol:
+        if new_viol:
+            # a replayed violation outranks BROKEN lines (a change that breaks the property can also make a
+            # vacuity witness unsatisfiable)
             code = C.EXIT_VIOLATION
+        elif self.errors:
+            code = C.EXIT_BROKEN
         elif self.unknown:
             code = C.EXIT_INCONCLUSIVE
         else:
